@@ -512,6 +512,7 @@ ENVIRONMENTS = [
     ("hash seed 9, C locale without UTF-8 mode", {"PYTHONHASHSEED": "9", "LC_ALL": "C", "LANG": "C", "PYTHONUTF8": "0", "PYTHONCOERCECLOCALE": "0"}, []),
     ("hash seed 10, submodules imported in reverse order, collector off", {"PYTHONHASHSEED": "10", "VERIF_ENV_PREPARE": "imports-reversed gc-off"}, []),
     ("hash seed 11, collector eager, python -O", {"PYTHONHASHSEED": "11", "VERIF_ENV_PREPARE": "gc-eager"}, ["-O"]),
+    ("hash seed 12, integer-string limit lowered to 640 digits after import", {"PYTHONHASHSEED": "12", "VERIF_ENV_PREPARE": "intmax-640-after-import"}, []),
 ]
 
 
